@@ -78,6 +78,7 @@ Mov64R(d, s) == I(191, d, s, 0, 0)       \* 0xbf mov64 rd, rs
 Mov64I(d, m) == I(183, d, 0, 0, m)       \* 0xb7 mov64 rd, imm
 Add64I(d, m) == I(7, d, 0, 0, m)         \* 0x07 add64 rd, imm
 ExitI        == I(EXIT, 0, 0, 0, 0)
+Add64R(d, s2) == I(15, d, s2, 0, 0)     \* 0x0f add64 rd, rs
 JaI(off)     == I(JA, 0, 0, off, 0)
 JltI(d, imm, off) == I(165, d, 0, off, imm)       \* 0xa5 jlt rd, imm
 JeqI(d, imm, off) == I(21, d, 0, off, imm)        \* 0x15 jeq rd, imm
@@ -146,7 +147,43 @@ AluIdxS(u) == { <<"S", o, 2, 6, ai, bi, I32[ii]>> : o \in ShiftOps, ai \in {13, 
 Pow2ish == { 2^k : k \in 0..30 } \cup { 2^k - 1 : k \in 1..30 } \cup { -(2^k) : k \in 0..30 } \cup { MinI32, 2147483647 }
 AluIdxP(u) == { <<"P", o, 5, 0, ai, 1, m>> : o \in ImmForms, ai \in {13, 14, 16, 18}, m \in Pow2ish }
 
+\* U: the offset field, which no arithmetic instruction uses, set to the values that mean something
+\* in later revisions of the instruction set (8, 16, 32: sign-extending moves; 1: signed division)
+\* and to the extremes; the source value has the sign bit of that width set and the bits above clear.
+\* The verifier accepts every offset here, so every engine must ignore it.
+AluOffCase(o, off, ai, bi) ==
+  [Dress(BaseCase, "nodata") EXCEPT !.id = <<"U", o, off, ai, bi, 0, 0>>, !.fam = "alu",
+     !.prog = Flat( LddwSlots(3, V64[ai]) \o (IF SrcBit(o) = 1 THEN LddwSlots(7, V64[bi]) ELSE <<>>)
+                    \o << I(o, 3, 7, off, IF IsEndian(o) THEN 32 ELSE 5) >> \o << Mov64R(0, 3), ExitI >> )]
+AluOffCases(u) ==
+  { AluOffCase(o, t[1], 18, t[2]) : o \in AluOpcodes \cup {LE, BE}, t \in { <<8, 16>>, <<16, 11>>, <<32, 10>>, <<1, 15>> } } \cup
+  { AluOffCase(o, off, 16, 17) : o \in {x \in AluOpcodes \cup {LE, BE} : Keep(x)}, off \in {-1, 32767, -32768, 24, 64} }
+
+\* the fields that loads, stores, neg, ja, call and exit do not use, set to junk (the verifier only
+\* checks that register fields are in range): every engine ignores them
+UnusedMiscCase(j) ==
+  [Dress(BaseCase, "nodata") EXCEPT !.id = <<"UM", j, 0, 0, 0, 0, 0>>, !.fam = "alu", !.helpers = {1},
+     !.prog = Flat(<< Mov64I(6, 77),
+                      I(123, 10, 6, -8, I32[j]),          \* stxdw [r10-8], r6   imm unused
+                      I(121, 0, 10, -8, I32[j + 1]),      \* ldxdw r0, [r10-8]   imm unused
+                      I(98, 10, (j % 10) + 1, -16, 5),    \* stw [r10-16], 5     src unused
+                      I(97, 2, 10, -16, I32[j + 2]),      \* ldxw r2, [r10-16]   imm unused
+                      Add64R(0, 2),
+                      I(135, 0, j % 11, 0, I32[j + 3]),   \* neg64 r0            src, imm unused
+                      I(5, j % 10, (j + 3) % 11, 1, I32[j]),   \* ja +1          dst, src, imm unused
+                      Add64I(0, 1000),
+                      Mov64R(6, 0),
+                      Mov64I(1, 1), Mov64I(2, 2), Mov64I(3, 3), Mov64I(4, 4), Mov64I(5, 5),
+                      I(133, j % 10, 0, OFFS[(j % 9) + 1], 1),     \* call helper 1    dst, off unused
+                      Add64R(0, 6),
+                      I(133, (j + 5) % 10, 1, OFFS[((j + 4) % 9) + 1], 1),   \* call +1  dst, off unused
+                      I(149, j % 10, (j + 7) % 11, 0, I32[j + 4]),  \* exit            dst, src, imm unused
+                      Add64I(0, 3),
+                      ExitI >>)]
+UnusedMiscCases == { UnusedMiscCase(j) : j \in 1..15 }
+
 AluCases(u) ==
+  AluOffCases(u) \cup UnusedMiscCases \cup
   { AluCase(t[1], t[2], t[3], t[4], t[5], t[6], t[7], "nodata") :
       t \in Sample(AluIdxA(u) \cup AluIdxB(u) \cup AluIdxC(u) \cup AluIdxD(u) \cup AluIdxP(u)) \cup AluIdxZ(u)
             \cup {x \in AluIdxS(u) : Keep(HashId(x) \div 3)} }
@@ -527,6 +564,21 @@ OverlapCase(order, w, pos) ==
                       !.prog = Flat(LddwSlots(3, AddN(ob, pos)) \o << LdxI(w, 0, 3, 0), ExitI >>)]
 OverlapCases == { OverlapCase(o, w, pos) : o \in {1, 2}, w \in Widths, pos \in {0, 7, 8, 12, 15, 16, 20, 24, 31, 32} }
 
+\* two ranges with a gap between them, and a third one covering both and the gap, registered in
+\* every order: the gap is accessible whenever the covering range is registered, whatever was
+\* registered before it
+CoverCase(order, w, pos) ==
+  LET ob == AllowBaseS(7)
+      bytes == [k \in 1..24 |-> (k * 11 + 3) % 256]
+      lo == [base |-> ob, bytes |-> SubSeq(bytes, 1, 8)]                     \* [0, 8)
+      hi == [base |-> AddN(ob, 16), bytes |-> SubSeq(bytes, 17, 24)]         \* [16, 24)
+      all == [base |-> ob, bytes |-> bytes]                                   \* [0, 24)
+  IN [BaseCase EXCEPT !.id = <<"cover", order, w, pos, 0, 0, 0>>, !.fam = "bounds", !.vm = "nodata",
+                      !.allow = CASE order = 1 -> <<lo, hi, all>> [] order = 2 -> <<all, lo, hi>>
+                                  [] order = 3 -> <<hi, all, lo>> [] order = 4 -> <<hi, lo, all>>,
+                      !.prog = Flat(LddwSlots(3, AddN(ob, pos)) \o << LdxI(w, 0, 3, 0), ExitI >>)]
+CoverCases == { CoverCase(o, w, pos) : o \in 1..4, w \in Widths, pos \in {0, 4, 7, 8, 12, 15, 16, 20, 23, 24} }
+
 \* an atomic add whose ADDEND is r10 (the value is an address, outside the claim; whether the access
 \* is performed is not), at a base outside every region, with displacements that would be fine for r10
 XaddR10Case(w, off) ==
@@ -544,7 +596,7 @@ LdIndWrapCase(w, k) ==
 LdIndWrapCases == { LdIndWrapCase(w, k) : w \in Widths, k \in {0, 2, 8} }
 
 BoundsCases(u) ==
-  NestedCases \cup GapCases \cup OverlapCases \cup XaddR10Cases \cup LdIndWrapCases \cup
+  NestedCases \cup GapCases \cup OverlapCases \cup CoverCases \cup XaddR10Cases \cup LdIndWrapCases \cup
   { PairCaseOf(t) : t \in PairIdx(u) } \cup
   { PairDirect(t[1], t[2], t[3], t[4], t[5]) : t \in PairDirectIdx(u) } \cup
   { DirectCaseOf(t[1], t[2], t[3], t[4]) : t \in DirectIdx(u) } \cup
@@ -590,7 +642,6 @@ FarCallCases(u) ==
 (*        add r0,r2 ; mov r2..r5,<2,3,4,5> ; mov r6..r9,<1,2,3,4> ; exit   *)
 (***************************************************************************)
 Sub64R(d, s2) == I(31, d, s2, 0, 0)     \* 0x1f sub64 rd, rs
-Add64R(d, s2) == I(15, d, s2, 0, 0)     \* 0x0f add64 rd, rs
 
 FnPre(k) == << Mov64I(6, 100*k + 6), Mov64I(8, 100*k + 8), Mov64R(9, 10) >>
             \o (IF k >= 1 THEN << Mov64R(7, 1), Sub64R(7, 10) >> ELSE << Mov64I(7, 7) >>)
@@ -670,7 +721,10 @@ TreeProg ==
           Mov64R(0, 1), Sub64R(0, 10), ExitI,                                                                        \* f1   8..10
           Mov64R(7, 1), Sub64R(7, 10), Mov64R(1, 10), CallxI(-7), Mov64R(8, 0), Mov64R(1, 10), CallxI(-10),         \* f2   11..22
           Lsh64I(0, 12), Add64R(0, 8), Lsh64I(0, 12), Add64R(0, 7), ExitI >>)
-TreeSizes == << <<64, 16, 32>>, <<16, 64, 32>>, <<32, 48, 16>>, <<256, 256, 256>>, <<16, 16, 512>> >>
+\* (256 is the size used without a calculator: a function whose calculator answers exactly that, run
+\* at a depth where a function of another size ran before, must still get 256)
+TreeSizes == << <<64, 16, 32>>, <<16, 64, 32>>, <<32, 48, 16>>, <<256, 256, 256>>, <<16, 16, 512>>,
+                <<64, 16, 256>>, <<16, 256, 64>>, <<256, 32, 256>> >>
 TreeCase(ti) ==
   [BaseCase EXCEPT !.id = <<"tree", ti, 0, 0, 0, 0, 0>>, !.fam = "calls", !.vm = "nodata", !.prog = TreeProg,
                    !.calc = (ti > 0),
@@ -977,9 +1031,25 @@ HelperThenLoad(kind, d, vk, w) ==
                 \o << Mov64R(0, 7), ExitI >>)]
 HelperThenLoadCases ==
   { HelperThenLoad(t[1], t[2], t[3], t[4]) : t \in (1..3) \X {0, 1} \X {"raw", "mbuff", "fixed"} \X {1, 8} }
+\* a helper that writes n bytes into the packet through its pointer argument ("poke", Exec.tla):
+\* the bytes around the write are loaded before and after the call, through a register and with
+\* ldabs; at call depth d
+PokeCase(n, pos, d) ==
+  [WithPkt([BaseCase EXCEPT !.vm = "raw"], FrameLen) EXCEPT
+     !.id = <<"poke", n, pos, d, 0, 0, 0>>, !.fam = "helpers", !.helpers = {1},
+     !.prog = Flat([k \in 1..(2*d) |-> IF k % 2 = 1 THEN CallxI(1) ELSE ExitI]
+                \o << Mov64R(6, 1), LdxI(1, 7, 6, pos), LdxI(8, 9, 6, 8 * (pos \div 8)),
+                      Mov64R(1, 6), Add64I(1, pos) >>
+                \o LddwSlots(2, V64[16])
+                \o << Mov64I(3, 1886350181), Mov64I(4, n), Mov64I(5, 0), CallI(1),
+                      LdxI(1, 0, 6, pos), Lsh64I(0, 8), LdxI(1, 2, 6, pos + n - 1), Add64R(0, 2), Lsh64I(0, 8),
+                      LdxI(1, 2, 6, pos + n), Add64R(0, 2), Lsh64I(0, 8), Add64R(0, 7), Mov64R(8, 0),
+                      LdAbsI(1, pos), Lsh64I(8, 8), Add64R(8, 0),
+                      LdxI(8, 2, 6, 8 * (pos \div 8)), Sub64R(2, 9), Add64R(8, 2), Mov64R(0, 8), ExitI >>)]
+PokeCases == { PokeCase(n, pos, d) : n \in {1, 2, 8}, pos \in {0, 5, 80}, d \in {0, 1} }
 IdSels == { <<HelperIds[k]>> : k \in 1..6 } \cup { <<1, 6>>, <<-1, 0, MinI32>>, <<2147483647, 1, 1>> }
 HelperCases(u) ==
-  HelperThenLoadCases \cup
+  HelperThenLoadCases \cup PokeCases \cup
   { HelperCase(t[1], t[2], t[3], t[4]) :
       t \in { x \in {0, 1, 2, 3, 7, 8} \X IdSels \X (1..Len(ArgSets)) \X (1..3) : Keep(x[1] + 3 * x[3] + 7 * x[4] + Len(x[2])) } }
 
